@@ -37,10 +37,24 @@ ArgKeysWhy(e) ==
       "omittable declared", {e.declared[i].key : i \in {j \in DOMAIN e.declared : e.declared[j].omittable}},
       "delivered", ASet(e.delivered)>>
 
+\* C01: a generated file parses as a module (the harness parser reports every item it could not parse),
+\* every declared function / type / parameter name is a legal identifier, every property key is an
+\* identifier name, a number or a quoted string
+SyntaxOk(e) ==
+    /\ Len(e.errors) = 0
+    /\ \A i \in DOMAIN e.names : IsIdentifierName(e.names[i])
+    /\ \A i \in DOMAIN e.keys : KeyWellFormed(e.keys[i])
+SyntaxWhy(e) ==
+    <<"unparsable items", e.errors,
+      "illegal names", {e.names[i] : i \in {j \in DOMAIN e.names : ~IsIdentifierName(e.names[j])}},
+      "bad keys", {e.keys[i].cs : i \in {j \in DOMAIN e.keys : ~KeyWellFormed(e.keys[j])}}>>
+
 Judge(e) == CASE e.event = "Key" -> KeyOk(e)
+              [] e.event = "Syntax" -> SyntaxOk(e)
               [] e.event = "ArgKeys" -> ArgKeysOk(e)
               [] OTHER -> FALSE
 Why(e) == CASE e.event = "Key" -> KeyWhy(e)
+            [] e.event = "Syntax" -> SyntaxWhy(e)
             [] e.event = "ArgKeys" -> ArgKeysWhy(e)
             [] OTHER -> <<"unknown event">>
 
